@@ -5,7 +5,7 @@
    5-7 attribute failures to known findings or report VIOLATION (shrunk), 8 KNOWN-FINDING lines, 9 evidence.
 """
 import os, sys, re, json, time, random, subprocess, hashlib, traceback, multiprocessing, glob, shutil
-from core import VERIF, REPO, run_model, run_impl, diff_results, jsonable
+from core import VERIF, REPO, run_model, run_impl, diff_results, jsonable, public
 
 COQ = os.path.join(VERIF, 'coq')
 ALLOWED_AXIOMS = {
@@ -92,7 +92,7 @@ def eval_chunk(args):
         fails = P.oracle(c, p, ri)
         for f in fails:
             i = f.get('index')
-            f['impl_eq_model'] = (i is not None and ri[i] == rm[i])
+            f['impl_eq_model'] = (i is not None and public(ri[i]) == rm[i])
         dis = diff_results(p, ri, rm, P.obs)
         res.append(dict(fails=fails, dis=[(i, list(op), jsonable(a), jsonable(b)) for i, op, a, b in dis[:3]], ndis=len(dis),
                         nt=bool(P.nontrivial(c, p, ri)), cls=P.classify(c, p, ri), nops=len(p)))
@@ -106,7 +106,7 @@ def eval_one(P, case):
     fails = P.oracle(case, p, ri)
     for f in fails:
         i = f.get('index')
-        f['impl_eq_model'] = (i is not None and ri[i] == rm[i])
+        f['impl_eq_model'] = (i is not None and public(ri[i]) == rm[i])
     dis = diff_results(p, ri, rm, P.obs)
     return p, ri, rm, fails, dis
 
